@@ -195,6 +195,28 @@ func grid(out *trace.W, r *rand.Rand, tid string, stats map[string]int) {
 		step(Call{Caller: cb.caller, Sender: sender(cb.caller), Ops: []Op{o}})
 		stats[fmt.Sprintf("forged:%s/%s/%s/%s/%s", cb.md, cb.caller, cb.signer, cb.chain, cb.tamper)]++
 	}
+	// relayed for its own transaction origin: the delegator (= signer, valid signature for our chain) itself sends
+	// the transaction to a forwarder contract, which CALLs / DELEGATECALLs / CALLCODEs the method; the immediate
+	// caller is the contract, so the message must be refused (the tx origin is no authority)
+	for _, x := range []string{"a3", "a4"} {
+		for _, via := range []string{"cC", "cD", "cO", "cN", "cW"} {
+			ops := []Op{
+				{M: "delegateByMsg", Act: []string{"Delegate", "Undelegate", "Redelegate"}[r.Intn(3)], Src: "v0", V: "v1", Amt: 1},
+				{M: "withdrawByMsg", V: []string{"all", "v0", "v1"}[r.Intn(3)]},
+			}
+			for _, o := range ops {
+				if o.Act == "Redelegate" {
+					o.V = "v2"
+				}
+				if o.Act != "Redelegate" {
+					o.Src = ""
+				}
+				o.MD, o.Signer, o.Chain, o.Tamper = x, x, "ours", "none"
+				step(Call{Caller: via, Sender: x, Ops: []Op{o}})
+				stats[fmt.Sprintf("relayed-for-origin:%s/%s/%s", x, via, o.M)]++
+			}
+		}
+	}
 	w.Views(out, c, []string{"a3", "a4", "cC"})
 	stats["grids"]++
 }
